@@ -53,28 +53,34 @@ def aggregate_after_loop(m, run):
     """AGG1: a list that is collected by append() inside a loop is handed to the object (attribute assignment or add()) after that loop,
     not inside it: several of the importing setters accumulate (Surface.trims appends), so assigning the growing list in every
     iteration stores the first elements again and again"""
-    n = 0
-    for fi in sorted(m.functions_in('_exchange'), key=lambda f: f.key):
-        for lp in [x for x in walk_no_nested(fi.node) if isinstance(x, ast.For)]:
+    def findings(fn):
+        out = []
+        for lp in [x for x in walk_no_nested(fn) if isinstance(x, ast.For)]:
             appended = {c.func.value.id for c in ast.walk(lp) if isinstance(c, ast.Call) and isinstance(c.func, ast.Attribute) and c.func.attr == 'append'
                         and isinstance(c.func.value, ast.Name)}
             # only lists created before the loop (accumulators of this loop)
-            created = {a.targets[0].id for a in walk_no_nested(fi.node) if isinstance(a, ast.Assign) and isinstance(a.targets[0], ast.Name)
+            created = {a.targets[0].id for a in walk_no_nested(fn) if isinstance(a, ast.Assign) and isinstance(a.targets[0], ast.Name)
                        and isinstance(a.value, (ast.List, ast.Call)) and a.lineno < lp.lineno and (isinstance(a.value, ast.List) and not a.value.elts
                                                                                               or (isinstance(a.value, ast.Call) and norm(a.value.func) == 'list' and not a.value.args))}
             inner_created = {a.targets[0].id for a in ast.walk(lp) if isinstance(a, ast.Assign) and isinstance(a.targets[0], ast.Name)}
             accs = (appended & created) - inner_created
             for acc in sorted(accs):
-                handed = [a for a in walk_no_nested(fi.node) if isinstance(a, ast.Assign) and isinstance(a.targets[0], ast.Attribute) and isinstance(a.value, ast.Name) and a.value.id == acc]
+                handed = [a for a in walk_no_nested(fn) if isinstance(a, ast.Assign) and isinstance(a.targets[0], ast.Attribute) and isinstance(a.value, ast.Name) and a.value.id == acc]
                 for h in handed:
-                    n += 1
-                    inside = any(x is h for x in ast.walk(lp))
-                    run.ob('AGG1.collected-list-handed-over-after-its-loop', '%s :: %s' % (fi.key, norm(h)), not inside,
-                           'assigned once, after the loop that fills `%s`' % acc if not inside else
-                           '`%s` is executed in every iteration of the loop that is still filling `%s`: with an accumulating setter the first elements are stored repeatedly '
-                           '(n items come back as n(n+1)/2)' % (norm(h), acc), site(fi, h))
-    if n < 1:
-        raise AnalysisError('AGG1: no collected list handed to an object found in _exchange')
+                    out.append((h, acc, any(x is h for x in ast.walk(lp))))
+        return out
+    n = 0
+    for fi in sorted(m.functions_in('_exchange'), key=lambda f: f.key):
+        for h, acc, inside in findings(fi.node):
+            n += 1
+            run.ob('AGG1.collected-list-handed-over-after-its-loop', '%s :: %s' % (fi.key, norm(h)), not inside,
+                   'assigned once, after the loop that fills `%s`' % acc if not inside else
+                   '`%s` is executed in every iteration of the loop that is still filling `%s`: with an accumulating setter the first elements are stored repeatedly '
+                   '(n items come back as n(n+1)/2)' % (norm(h), acc), site(fi, h))
+    ctl = ast.parse('def f(o, data):\n    xs = []\n    for d in data:\n        xs.append(d)\n        o.items = xs\n').body[0]
+    if [x[2] for x in findings(ctl)] != [True]:
+        raise AnalysisError('AGG1 positive control not reported: rule is broken')
+    run.ob('AGG1.collected-list-handed-over-after-its-loop', '_exchange', True, '%d hand-overs of collected lists found; positive control reported' % n)
 
 
 def guard_keys(m, run):
